@@ -17,6 +17,7 @@ pub mod c13;
 pub mod c14;
 pub mod c15;
 pub mod c16;
+pub mod c20;
 
 pub struct PropDef {
     pub id: &'static str,
@@ -44,6 +45,7 @@ pub fn lookup(id: &str) -> Option<PropDef> {
         "C14" => c14::def(),
         "C15" => c15::def(),
         "C16" => c16::def(),
+        "C20" => c20::def(),
         _ => return None,
     })
 }
